@@ -283,6 +283,20 @@ package keeper
 //@   property C15, C09
 //@   pure
 
+
+// GetAmountOfOtherToken: value conversion between two assets at given rates — a deterministic function of its arguments and the
+// two asset records; exact formula over the SDK's rounding functions (used by the auction bid contracts).
+//@ pred convAmt(amt, rate1, dec1, rate2, dec2): trunc(decMul(decQuo(decQuo(decMul(dec(amt), rate1), dec(dec1)), rate2), dec(dec2)))
+
+//@ func (k Keeper) GetAmountOfOtherToken
+//@   property C10
+//@   pure
+//@   let a1 = k.asset.GetAsset(ctx, id1)
+//@   let a2 = k.asset.GetAsset(ctx, id2)
+//@   requires #rates: rate2 != 0 && a1.0.Decimals != 0
+//@   ensures #c10-conversion: a1.1 && a2.1 ==> result2 == nil && result1 == convAmt(amt1, rate1, a1.0.Decimals, rate2, a2.0.Decimals)
+//@   ensures #c10-conversion-missing-asset: !(a1.1 && a2.1) ==> result2 != nil && result1 == 0
+
 //@ func (k msgServer) MsgDepositAndDraw
 //@   property C12, C14
 //@   let v0 = k.GetVault(ctx, msg.UserVaultId).0
